@@ -84,6 +84,9 @@ def c08(rep, tier):
     r_scope.run_argeval(p, rep)
     r_pair.check_loop_reset(p, rep, "<liquid_lib::stdlib::tags::render_tag::Render as liquid_core::runtime::renderable::Renderable>::render_to", "Render::render_to(for)")
     r_partials.run_loud(p, rep)
+    # the *tag* fails when its partial does not parse: a broken partial is kept as a per-name Result, building the parser never fails on it
+    r_partials.run_eager_shape(p, rep)
+    r_partials.run_compile_never_fails(p, rep)
     r_freeze.run_freeze(p, rep)
     # "a break inside an include ends the caller's loop": the enclosing template polls after every element, tags included
     r_pair.run_template_poll(p, rep)
